@@ -117,7 +117,12 @@ fn declaration(rng: &mut Rng, ctx: &mut Ctx, coding: Coding) -> (Vec<(String, Ve
         Coding::Gzip => *rng.pick(&["gzip", "GZIP", "Gzip", "gZiP"]),
         Coding::Deflate => *rng.pick(&["deflate", "DEFLATE", "Deflate"]),
     };
-    match rng.below(6) {
+    match rng.below(7) {
+        6 => {
+            // the coding list split over two Content-Encoding fields (equivalent to `identity, <coding>`)
+            ctx.count("coding_list_split_over_fields", 1);
+            (vec![("Content-Encoding".into(), b"identity".to_vec()), ("content-encoding".into(), word.as_bytes().to_vec())], false)
+        }
         0 | 1 => (vec![("Content-Encoding".into(), word.as_bytes().to_vec())], false),
         2 => (vec![("content-encoding".into(), format!("identity, {word}").into_bytes())], false),
         3 => (vec![("Content-Encoding".into(), format!(" {word} ").into_bytes())], false),
